@@ -98,6 +98,11 @@ class PolarsCheckBackend(BaseCheckBackend):
             results = results.with_columns(
                 pl.col(CHECK_OUTPUT_KEY) | pl.col(CHECK_OUTPUT_KEY).is_null()
             )
+        else:
+            # nulls are not ignored: a null check output is a failure case
+            results = results.with_columns(
+                pl.col(CHECK_OUTPUT_KEY).fill_null(False)
+            )
         passed = results.select([pl.col(CHECK_OUTPUT_KEY).all()])
         failure_cases = pl.concat(
             [check_obj.lazyframe, results], how="horizontal"
